@@ -175,7 +175,13 @@ pub fn run(cfg: &Cfg, mode: &str) {
                 None => break,
             };
             s.count("patterns");
-            let names = names_field(&re);
+            let names = match catch_unwind(AssertUnwindSafe(|| names_field(&re))) {
+                Ok(n) => n,
+                Err(_) => {
+                    s.violation("C16", "panic", &[("pattern", p.clone()), ("detail", "capture_names() panicked".to_string())]);
+                    String::new()
+                }
+            };
             if !names.is_empty() {
                 // re-send the pattern with its names
                 s.count("named_patterns");
